@@ -1476,7 +1476,7 @@ def _idna_encode(host: str) -> str:
     try:
         return idna.encode(host, uts46=True).decode("ascii")
     except UnicodeError:
-        return host.encode("idna").decode("ascii")
+        return host.encode("idna").decode("ascii").lower()
 
 
 @lru_cache(_DEFAULT_ENCODE_SIZE)
